@@ -91,6 +91,9 @@ def layers(tier):
         big = R * C >= 9
         huge = R * C >= 10  # 3x4, 2x5, 4x3, 5x2: two priors per column, one weight (the full product has 5 * 10^8 instances)
         L.append(c01.Layer(f"G1-single-{R}x{C}", "single", R, C, gls=prior_cols(1, tier) if not ((big and not T) or huge) else prior_cols(1, tier)[:2], weights=((q4 if (T and R * C <= 6) else q2) if R <= 3 else [10]) if not huge else [10], rcs=[10], minlen=2))
+    # phred weights above 255 (outside the precomputed table of the implementation), not multiples of ten
+    for R, C in [(2, 2), (3, 2)] + ([(2, 3)] if T else []):
+        L.append(c01.Layer(f"G1-single-bigq-{R}x{C}", "single", R, C, gls=prior_cols(1, tier)[:2], weights=[257, 263, 301] if R == 2 else [257, 301], rcs=[10], minlen=2))
     for R, C in [(1, 2), (2, 2), (3, 2), (1, 3), (2, 3)] + ([(3, 3), (4, 2)] if T else []):
         big = R * C >= 6
         L.append(c01.Layer(f"G3-trio-{R}x{C}", "trio", R, C, gls=prior_cols(3, tier) if not big else prior_cols(3, tier)[: 2 if (not T or R * C >= 9) else 3], weights=[10] if R >= 3 else q2, rcs=[1, 10, 30] if not big else [1, 30], minlen=2))
